@@ -32,6 +32,7 @@ type epoch struct {
 	nsamp    int
 	groupRx  bool // channel may receive secondary triggers in this epoch
 	lengthOK bool
+	start    bool // the epoch begins with a start of the source: new processors, no samples retained
 }
 
 type chanObs struct {
@@ -208,32 +209,95 @@ func pipeBody(env *simrt.Env, prop string) {
 		return busy(genTriggerState(specs[c], w.signed[c], w.nsamp, rate, true))
 	}
 
-	// ---- history 1: settings restored from the saved configuration before Start
-	if history == 1 {
-		var fts []FullTriggerState
-		for c := 0; c < nchan; c++ {
-			ts := busy(genTriggerState(specs[c], w.signed[c], nsamp, rate, true))
-			fts = append(fts, FullTriggerState{ChannelIndices: []int{c}, TriggerState: ts})
-		}
+	// saveTriggers puts trigger groups into the configuration the way dastard saves them (the client updater
+	// hands the last message of the TRIGGER topic to saveState) and decides how the next start finds them:
+	// read back from the file by a new process, or still in viper (a Stop and Start in one process).
+	saveTriggers := func(fts []FullTriggerState) {
 		saveState(map[string]interface{}{"TRIGGER": fts})
-		resetViper(env.Dir)
-		if err := viper.ReadInConfig(); err != nil {
-			simrt.Fail("harness.viper", "harness:viper", "cannot read the saved configuration back: %v", err)
+		if simrt.Draw(2) == 0 {
+			resetViper(env.Dir)
+			if err := viper.ReadInConfig(); err != nil {
+				simrt.Fail("harness.viper", "harness:viper", "cannot read the saved configuration back: %v", err)
+			}
+			simrt.Hit("restored-triggers:read-from-the-file")
+		} else {
+			simrt.Hit("restored-triggers:still-in-memory")
 		}
+	}
+	// restoredRef is the reference model of a start with restored settings: every channel has the settings
+	// the saved configuration holds FOR THAT CHANNEL (dastard restores them with edge-multi switched off, its
+	// issue #271); a channel the saved configuration does not mention has what the server reports for it.
+	restoredRef := func(saved []*TriggerState) {
+		for _, f := range w.ss.ComputeFullTriggerState() {
+			for _, c := range f.ChannelIndices {
+				curTS[c] = f.TriggerState
+			}
+		}
+		kinds := map[string]bool{}
+		for c := 0; c < nchan; c++ {
+			if saved[c] != nil {
+				curTS[c] = *saved[c]
+				curTS[c].EdgeMulti = false
+				curTS[c].EMTState = EMTState{}
+				kinds[tsString(&curTS[c])] = true
+			} else {
+				kinds["-"] = true
+			}
+		}
+		if len(kinds) > 1 {
+			simrt.Hit("start-with-restored-triggers:channels-differ")
+		}
+	}
+
+	// ---- history 1: settings restored from the saved configuration before Start. The saved list is what
+	// dastard writes: groups of channels with equal settings, in no particular order. Channels may differ,
+	// some may not be mentioned at all (the array has grown since), and a group may mention channels that
+	// no longer exist.
+	saved := make([]*TriggerState, nchan)
+	if history == 1 {
+		ngroups := 1 + simrt.Draw(nchan)
+		member := make([][]int, ngroups)
+		for c := 0; c < nchan; c++ {
+			if nchan >= 2 && !backPressure && simrt.Draw(6) == 0 {
+				simrt.Hit("start-with-restored-triggers:channel-not-mentioned")
+				continue
+			}
+			g := simrt.Draw(ngroups)
+			member[g] = append(member[g], c)
+		}
+		var fts []FullTriggerState
+		for g := range member {
+			if len(member[g]) == 0 {
+				continue
+			}
+			c0 := member[g][0]
+			ts := busy(genTriggerState(specs[c0], w.signed[c0], nsamp, rate, true))
+			for _, c := range member[g] {
+				t := ts
+				saved[c] = &t
+			}
+			idx := append([]int(nil), member[g]...)
+			if simrt.Draw(8) == 0 {
+				idx = append(idx, nchan+simrt.Draw(3)) // a channel of a larger array saved earlier
+			}
+			fts = append(fts, FullTriggerState{ChannelIndices: idx, TriggerState: ts})
+		}
+		// the order of the groups in the list means nothing
+		for i := len(fts) - 1; i > 0; i-- {
+			j := simrt.Draw(i + 1)
+			fts[i], fts[j] = fts[j], fts[i]
+		}
+		saveTriggers(fts)
 		simrt.Hit("start-with-restored-triggers")
-		env.Op("restore trigger settings from the saved configuration")
+		env.Op("restore trigger settings from the saved configuration: %d group(s) %v", len(fts), groupsString(fts))
 	}
 	if err := w.startScripted(); err != nil {
 		simrt.Fail("harness.start", "harness:start", "Start failed: %v", err)
 	}
-	// settings in force at start = what the server reports
-	for _, f := range w.ss.ComputeFullTriggerState() {
-		for _, c := range f.ChannelIndices {
-			curTS[c] = f.TriggerState
-		}
-	}
+	// settings in force at start: the saved ones, channel by channel
+	restoredRef(saved)
 	for c := 0; c < nchan; c++ {
-		obs[c].epochs = append(obs[c].epochs, epoch{from: 0, recFrom: 0, ts: curTS[c], npre: npre, nsamp: nsamp})
+		obs[c].epochs = append(obs[c].epochs, epoch{from: 0, recFrom: 0, ts: curTS[c], npre: npre, nsamp: nsamp, start: true})
 	}
 
 	configure := func(c int, ts TriggerState) {
@@ -378,6 +442,12 @@ func pipeBody(env *simrt.Env, prop string) {
 	if len(blocks) > 4 && !c02Group && simrt.Draw(3) == 0 {
 		orderAt = 1 + simrt.Draw(len(blocks)-3)
 	}
+	// a Stop and a new Start mid-history: the settings the requests so far have left in force are saved
+	// through the server's own TRIGGER message, the new run restores them, and data follow before any request
+	restartAt := -1
+	if len(blocks) > 5 && !backPressure && !c02Group && simrt.Draw(3) == 0 {
+		restartAt = 2 + simrt.Draw(len(blocks)-4)
+	}
 	for bi, n := range blocks {
 		if bi == orderAt {
 			w.sync()
@@ -426,6 +496,34 @@ func pipeBody(env *simrt.Env, prop string) {
 				configure(c, genTS(c))
 				simrt.Hit("reconfiguration-with-data-retained")
 			}
+		}
+		if bi == restartAt {
+			w.sync()
+			w.drain()
+			m, have := w.sk.lastMsg("TRIGGER")
+			fts, isFTS := m.state.([]FullTriggerState)
+			if !have || !isFTS {
+				simrt.Fail("harness.restart", "harness:no-trigger-message", "no TRIGGER status message to save (have=%v, state %T)", have, m.state)
+			}
+			saveTriggers(fts)
+			w.stop()
+			w.drain()
+			w.cycleBase, w.ss.delivered = w.fed, 0
+			if err := w.startScripted(); err != nil {
+				simrt.Fail("harness.start", "harness:start", "second Start failed: %v", err)
+			}
+			was := make([]*TriggerState, nchan)
+			for c := 0; c < nchan; c++ {
+				t := curTS[c]
+				was[c] = &t
+			}
+			restoredRef(was)
+			w.drain()
+			for c := 0; c < nchan; c++ {
+				obs[c].epochs = append(obs[c].epochs, epoch{from: w.sent, recFrom: w.recCount(c), ts: curTS[c], npre: w.npre, nsamp: w.nsamp, start: true})
+			}
+			simrt.Hit("stop-and-start-with-restored-triggers")
+			env.Op("Stop, Start: the run restores %d saved group(s) %v at sample %d", len(fts), groupsString(fts), w.sent)
 		}
 		if n < npre {
 			simrt.Hit("block-shorter-than-pretrigger")
@@ -564,7 +662,15 @@ func pipeBody(env *simrt.Env, prop string) {
 	env.Sample(map[string]interface{}{"nchan": nchan, "nsamp": nsamp, "npre": npre, "samples_per_channel": total, "blocks": len(blocks),
 		"history":     []string{"fresh+ConfigureTriggers", "restored-config", "fresh+ConfigurePulseLengths", "fresh+reconfigure"}[history],
 		"trigger_ch0": tsString(&obs[0].epochs[len(obs[0].epochs)-1].ts), "stream_ch0": fmt.Sprintf("kind=%d base=%d noise=%d %v", specs[0].kind, specs[0].baseline, specs[0].noise, specs[0].features),
-		"records": nrec})
+		"records": nrec, "restart_at_block": restartAt})
+}
+
+func groupsString(fts []FullTriggerState) string {
+	out := ""
+	for i := range fts {
+		out += fmt.Sprintf("%v:{%s} ", fts[i].ChannelIndices, tsString(&fts[i].TriggerState))
+	}
+	return out
 }
 
 func epochOfRec(o *chanObs, idx int) *epoch {
@@ -835,11 +941,13 @@ func checkTriggers(w *pipeWorld, c int, o *chanObs, total int) {
 			}
 		}
 		lo := e.from + 2*old + 10
-		if ei == 0 {
+		if ei == 0 || e.start {
+			// the first block after a start: everything from the first sample that has its pre-trigger samples
 			lo = e.npre
 			if lo < 3 {
 				lo = 3
 			}
+			lo += e.from
 		}
 		hi := total - 2*e.nsamp // exclusive
 		if ei+1 < len(o.epochs) {
